@@ -64,6 +64,7 @@ fn main() {
                 "c21" => checks::c21::replay(w.case.as_ref().expect("witness without case")),
                 "c13" => checks::c13::replay(w.case.as_ref().expect("witness without case")),
                 "c11" => checks::c11::replay(w.case.as_ref().expect("witness without case")),
+                "c11ir" => checks::c11::replay_ir(w.case.as_ref().expect("witness without case")),
                 "c05" => checks::c05::replay(w.case.as_ref().expect("witness without case")),
                 other => Err(format!("no replay routine for kind {other}")),
             };
